@@ -22,7 +22,7 @@ GRIDS = {
 DIMS = OrderedDict([
     ("nv", [6, 4, 12]),
     ("shape", [[2, 1], [1, 2], [3, 2], [8, 10]]),
-    ("lattice", ["none", "power", "tab"]),
+    ("lattice", ["none", "power", "tab", "nlc"]),
     ("system", [None] + synth.SYSTEMS),
     ("compset", ["minimal", "nonzero", "full21"]),
     ("static", ["cubicfit", "generic"]),
